@@ -49,6 +49,9 @@ type scenario struct {
 	nworker, limit int
 	lifetime       int // units
 	autostart      bool
+	ctorStart      bool // auto-start through the constructor (DisableAutoStart=false) instead of an explicit Start call
+	nilParent      bool // NewPool(nil, ...)
+	zeroLifetime   bool // ExpandedLifetime <= 0 is normalised to one minute (lifetime holds the normalised value)
 	actions        []string
 }
 
@@ -72,6 +75,15 @@ type runState struct {
 	stopCalled   bool
 	poolDone     bool
 	maxRunning   int
+}
+
+// nres is the number of results buffered on the task's result channel; a submission through Execute* that is still
+// blocked has not handed its task back yet (and cannot have a result)
+func (t *taskRec) nres() int {
+	if t.task == nil {
+		return 0
+	}
+	return len(t.task.Result())
 }
 
 func (r *runState) fail(format string, args ...interface{}) {
@@ -115,7 +127,7 @@ func (r *runState) observe(step int) {
 			run = 1
 			running++
 		}
-		nres := len(t.task.Result())
+		nres := t.nres()
 		res := ""
 		if nres > 0 {
 			res = "?"
@@ -146,7 +158,7 @@ func (r *runState) observe(step int) {
 			r.fail("C08 Stop has returned but %d pool goroutine(s) are still alive", w)
 		}
 		for _, t := range r.tasks {
-			if t.accepted && len(t.task.Result()) != 1 {
+			if t.accepted && t.nres() != 1 {
 				r.fail("C08 Stop has returned but accepted task %d has no result (executions %d)", t.id, atomic.LoadInt32(&t.execs))
 			}
 			if !t.returned {
@@ -171,7 +183,12 @@ func (r *runState) submit(kind, ctxKind string) {
 		<-tr.gate
 		return id, nil
 	}
-	tr.task = workerpool.NewTask(tr.ctx, exec)
+	// three equivalent routes through the API, chosen by task id: NewTask+Do/TryDo, Execute*/TryExecute* with an explicit
+	// context argument (nil = the pool's), and (pool context only) plain Execute/TryExecute
+	route := id % 3
+	if route == 0 {
+		tr.task = workerpool.NewTask(tr.ctx, exec)
+	}
 	r.tasks = append(r.tasks, tr)
 	gate := r.burstGate
 	go func() {
@@ -184,14 +201,35 @@ func (r *runState) submit(kind, ctxKind string) {
 			<-gate
 		}
 		if kind == "do" {
-			r.pool.Do(tr.task)
+			var task *workerpool.Task
+			switch {
+			case route == 0:
+				task = tr.task
+				r.pool.Do(task)
+			case route == 2 && ctxKind == "pool":
+				task = r.pool.Execute(exec)
+			default:
+				task = r.pool.ExecuteWithCtx(tr.ctx, exec) // tr.ctx is nil for the pool context
+			}
 			r.mu.Lock()
+			tr.task = task
 			tr.returned, tr.accepted = true, true
 			r.rets = append(r.rets, fmt.Sprintf("do:%d", id))
 			r.mu.Unlock()
 		} else {
-			b := r.pool.TryDo(tr.task)
+			var task *workerpool.Task
+			var b bool
+			switch {
+			case route == 0:
+				task = tr.task
+				b = r.pool.TryDo(task)
+			case route == 2 && ctxKind == "pool":
+				task, b = r.pool.TryExecute(exec)
+			default:
+				task, b = r.pool.TryExecuteWithCtx(tr.ctx, exec)
+			}
 			r.mu.Lock()
+			tr.task = task
 			tr.returned, tr.tryRes, tr.accepted = true, b, b
 			r.rets = append(r.rets, fmt.Sprintf("try:%d:%v", id, b))
 			r.mu.Unlock()
@@ -204,8 +242,19 @@ func (r *runState) runScenario() {
 	parent, pcancel := context.WithCancel(context.Background())
 	r.pcancel = pcancel
 	fmt.Fprintf(r.tr, "reset pool %d %d %d\n", sc.nworker, sc.limit, sc.lifetime)
-	r.pool = workerpool.NewPool(parent, workerpool.Option{NumberWorker: sc.nworker, ExpandableLimit: int32(sc.limit),
-		ExpandedLifetime: time.Duration(sc.lifetime) * unit, DisableAutoStart: true})
+	lifetime := time.Duration(sc.lifetime) * unit
+	if sc.zeroLifetime {
+		lifetime = -time.Duration(sc.nworker) * unit // <= 0: normalised to time.Minute (= sc.lifetime units)
+		if sc.limit == 1 {
+			lifetime = 0
+		}
+	}
+	var pctx context.Context = parent
+	if sc.nilParent {
+		pctx = nil
+	}
+	r.pool = workerpool.NewPool(pctx, workerpool.Option{NumberWorker: sc.nworker, ExpandableLimit: int32(sc.limit),
+		ExpandedLifetime: lifetime, DisableAutoStart: !sc.ctorStart})
 	r.poolDoneStep = -1
 	r.startStep = -1
 	for i, a := range sc.actions {
@@ -229,7 +278,14 @@ func (r *runState) runScenario() {
 			if r.startStep < 0 {
 				r.startStep = i
 			}
-			go func() { r.pool.Start(); r.mu.Lock(); r.rets = append(r.rets, "start"); r.mu.Unlock() }()
+			if i == 0 && sc.ctorStart {
+				// the constructor has already called Start (synchronously)
+				r.mu.Lock()
+				r.rets = append(r.rets, "start")
+				r.mu.Unlock()
+			} else {
+				go func() { r.pool.Start(); r.mu.Lock(); r.rets = append(r.rets, "start"); r.mu.Unlock() }()
+			}
 		case "stop":
 			r.stopCalled = true
 			if r.poolDoneStep < 0 {
@@ -303,6 +359,10 @@ func (r *runState) runScenario() {
 	var fin []string
 	for _, t := range r.tasks {
 		kind := "none"
+		if t.task == nil {
+			r.fail("C12 submission of task %d still blocked after Stop", t.id)
+			continue
+		}
 		select {
 		case res := <-t.task.Result():
 			if res.Err != nil {
@@ -341,7 +401,7 @@ func (r *runState) runScenario() {
 		}
 		// a second result would have blocked a worker for ever; detect a second buffered value after draining one
 		synctest.Wait()
-		if len(t.task.Result()) != 0 {
+		if t.nres() != 0 {
 			r.fail("C04 task %d received more than one result", t.id)
 		}
 		if t.accepted && kind == "none" {
@@ -369,12 +429,18 @@ func genScenario(rng *rand.Rand) scenario {
 	sc := scenario{nworker: 1 + rng.Intn(2), limit: rng.Intn(3), lifetime: 50, autostart: rng.Intn(5) != 0}
 	if sc.autostart {
 		sc.actions = append(sc.actions, "start")
+		sc.ctorStart = rng.Intn(2) == 0
 	}
+	if sc.limit > 0 && rng.Intn(6) == 0 {
+		sc.zeroLifetime, sc.lifetime = true, int(time.Minute/unit)
+	}
+	L := sc.lifetime
 	ntask := 0
 	running := map[int]bool{} // submitted and not yet released (may or may not be running)
 	own := map[int]bool{}
 	n := 3 + rng.Intn(10)
 	stopped, started := false, sc.autostart
+	cancelsParent := false
 	for i := 0; i < n; i++ {
 		switch r := rng.Intn(100); {
 		case r < 38:
@@ -407,8 +473,9 @@ func genScenario(rng *rand.Rand) scenario {
 			}
 		case r < 72:
 			sc.actions = append(sc.actions, "cancelparent")
+			cancelsParent = true
 		case r < 82:
-			sc.actions = append(sc.actions, fmt.Sprintf("advance %d", []int{1, 49, 50, 51, 100}[rng.Intn(5)]))
+			sc.actions = append(sc.actions, fmt.Sprintf("advance %d", []int{1, L - 1, L, L + 1, 2 * L}[rng.Intn(5)]))
 		case r < 90:
 			if !stopped {
 				sc.actions = append(sc.actions, "stop")
@@ -421,6 +488,7 @@ func genScenario(rng *rand.Rand) scenario {
 			}
 		}
 	}
+	sc.nilParent = !cancelsParent && rng.Intn(3) == 0
 	return sc
 }
 
@@ -448,7 +516,7 @@ func TestScenarios(t *testing.T) {
 	for run := lo; run < hi; run++ {
 		rng := rand.New(rand.NewSource(seed*1000003 + int64(run)))
 		sc := genScenario(rng)
-		fmt.Fprintf(mon, "RUN %d nworker=%d limit=%d lifetime=%d actions=%s\n", run, sc.nworker, sc.limit, sc.lifetime, strings.Join(sc.actions, ";"))
+		fmt.Fprintf(mon, "RUN %d nworker=%d limit=%d lifetime=%d ctorStart=%v nilParent=%v zeroLifetime=%v actions=%s\n", run, sc.nworker, sc.limit, sc.lifetime, sc.ctorStart, sc.nilParent, sc.zeroLifetime, strings.Join(sc.actions, ";"))
 		mon.Flush() // a crash of the binary (panic in a worker goroutine) leaves the scenario as replay
 		r := &runState{t: t, tr: tr, sc: sc}
 		synctest.Test(t, func(t *testing.T) { r.runScenario() })
@@ -631,6 +699,15 @@ func crowdRound(mon *bufio.Writer, rng *rand.Rand, round int) {
 	nw, limit := 1+rng.Intn(2), 1+rng.Intn(2)
 	pre := rng.Intn(limit) // expanded workers created sequentially before the crowd
 	opt := workerpool.Option{NumberWorker: nw, ExpandableLimit: int32(limit), ExpandedLifetime: time.Minute}
+	if rng.Intn(5) == 0 {
+		// documented normalisation of the options: NumberWorker <= 0 means runtime.NumCPU(), a negative ExpandableLimit means 0
+		opt.NumberWorker = -rng.Intn(2)
+		nw = runtime.NumCPU()
+		if rng.Intn(2) == 0 {
+			opt.ExpandableLimit = -1 - int32(rng.Intn(3))
+			limit, pre = 0, 0
+		}
+	}
 	fmt.Fprintf(mon, "RUN %d round=%d crowd opt=%+v preExpanded=%d\n", round, round, opt, pre)
 	mon.Flush()
 	p := workerpool.NewPool(context.Background(), opt)
@@ -658,22 +735,48 @@ func crowdRound(mon *bufio.Writer, rng *rand.Rand, round int) {
 		return false
 	}
 	msg := ""
-	for i := 0; i < nw; i++ {
-		p.Execute(exec)
-	}
-	if !waitRunning(nw) {
-		msg = "C17 fixed workers did not pick up the first NumberWorker tasks"
-	}
-	p.Execute(exec) // fills the queue slot
-	for i := 0; i < pre && msg == ""; i++ {
-		p.Execute(exec)
-		if !waitRunning(nw + i + 1) {
-			msg = "C11 a saturated pool below its expansion limit did not expand"
+	var mmu sync.Mutex
+	setMsg := func(m string) {
+		mmu.Lock()
+		if msg == "" {
+			msg = m
 		}
+		mmu.Unlock()
+	}
+	prefill := make(chan struct{})
+	go func() {
+		defer close(prefill)
+		for i := 0; i < nw; i++ {
+			p.Execute(exec)
+		}
+		if !waitRunning(nw) {
+			setMsg(fmt.Sprintf("C11 a pool with option NumberWorker=%d (normalised: %d) did not run %d tasks at once", opt.NumberWorker, nw, nw))
+		}
+		p.Execute(exec) // fills the queue slot
+		for i := 0; i < pre; i++ {
+			p.Execute(exec)
+			if !waitRunning(nw + i + 1) {
+				setMsg("C11 a saturated pool below its expansion limit did not expand")
+			}
+		}
+	}()
+	select {
+	case <-prefill:
+	case <-time.After(5 * time.Second):
+		// fewer workers than the options promise: the sequential submissions above are blocked
+		setMsg(fmt.Sprintf("C11 a pool with options NumberWorker=%d ExpandableLimit=%d runs only %d tasks at once, fewer than its %d fixed workers", opt.NumberWorker, opt.ExpandableLimit, atomic.LoadInt32(&running), nw))
+		close(release)
+		<-prefill
+		p.Stop()
+		fmt.Fprintf(mon, "MON %d FAIL %s\n", round, msg)
+		return
 	}
 	crowd := runtime.GOMAXPROCS(0) - 2
 	if crowd < 2 {
 		crowd = 8
+	}
+	if crowd < limit-pre+4 {
+		crowd = limit - pre + 4
 	}
 	var start uint32
 	var ready, done sync.WaitGroup
